@@ -10,6 +10,9 @@ complete data directories (function records, per-cpu perf files with holes and c
 real senders, the received directory compared byte for byte with the local one and `uftrace replay / report /
 dump / dump --chrome / graph / info` of both directories compared; real `uftrace record` next to real
 `uftrace record --host` of one program, compared after canonicalising pids, times and addresses.
+Sizes: synthesized task files of 2^16 .. several MiB sent in task buffers (one write_buffer call = one flush of a
+shared-memory buffer) of 2^16, 2^20, 2^20 +- 4 / 8 / 16, 2, 3 and 8 MiB; a real `record -b 8M [--host]` of a program
+that makes > 100k calls (one buffer of several MiB flushed at the end).
 """
 import importlib.util
 import json
@@ -757,6 +760,10 @@ def run_e2e(ctx, report):
         forced = forced_cpus()
         n = len(forced) + (9 if ctx.tier == "quick" else 150)
         runs = [E.gen_run(rng, i, force_cpus=(forced[i] if i < len(forced) else None)) for i in range(n)]
+        # sizes: task files / task buffers around 2^16, 2^20 and of several MiB (what `record -b 8M` flushes at once)
+        runs += E.gen_big_runs(rng, n, 2 if ctx.tier == "quick" else 40)
+        st["synth_big_runs"] = sum(1 for r in runs if r.big)
+        st["synth_big_shapes"] = [(len(b), r.chunk) for r in runs if r.big for b in r.raw.values()]
         local = {}
         for r in runs:
             d = os.path.join(root, "l%d" % r.idx)
@@ -766,14 +773,15 @@ def run_e2e(ctx, report):
         i = 0
         groups = []
         while i < len(runs):
-            k = 3 if (len(groups) % 3 == 1 and i + 3 <= len(runs)) else 1
+            k = 3 if (len(groups) % 3 == 1 and i + 3 <= len(runs) and not any(r.big for r in runs[i:i + 3])) else 1
             groups.append(runs[i:i + k])
             i += k
         send_fail = {}
         for g in groups:
             if len(g) == 1:
                 r = g[0]
-                rc, err = E.send_dir(sender, srv.port, local[r.idx], "r%d" % r.idx, root, rng.choice([16, 64, 4096, 1 << 20]))
+                rc, err = E.send_dir(sender, srv.port, local[r.idx], "r%d" % r.idx, root,
+                                     r.chunk if r.chunk else rng.choice([16, 64, 4096, 1 << 20]))
                 if rc != 0:
                     send_fail[r.idx] = "sender rc=%d %s" % (rc, err)
             else:
@@ -811,7 +819,8 @@ def run_e2e(ctx, report):
                                                  theorem="c16_network_equals_local, c16_perf_files_preserved"))
                 continue
             st["synth_dirs_equal"] += 1
-            ol, og = E.outputs(uftrace, local[r.idx]), E.outputs(uftrace, rd)
+            sub = [("replay", []), ("report", ["-f", "call", "-s", "func"])] if r.big else None
+            ol, og = E.outputs(uftrace, local[r.idx], sub), E.outputs(uftrace, rd, sub)
             for k in ol:
                 st["synth_cmd_pairs"] += 1
                 if ol[k] == og[k] and ol[k][0] == 0:
@@ -827,7 +836,7 @@ def run_e2e(ctx, report):
                             local_output=ol[k][1][:2500].decode("latin-1"), received_output=og[k][1][:2500].decode("latin-1"),
                             theorem="c16_network_equals_local, c16_perf_reader_ignores_empty_files"))
             # the per-cpu labels of `uftrace dump`: each must name the file whose events follow
-            for which, o, files in (("local", ol["dump"], lf), ("received", og["dump"], got)):
+            for which, o, files in ((("local", ol["dump"], lf), ("received", og["dump"], got)) if "dump" in ol else ()):
                 if o[0] != 0:
                     continue
                 labels = [nn for nn, _ in E.dump_perf_blocks(o[1])]
@@ -873,9 +882,12 @@ def run_e2e(ctx, report):
         else:
             cpu, ncpu = E.pin_cpu()
             libm = os.path.join(ctx.src, "libmcount")
-            variants = [("event", [], []), ("noevent", ["--no-event"], [])]
+            # bigbuf: > 100k calls into ONE shared-memory buffer of several MiB (-b 8M), flushed at once at the end
+            variants = [("event", [], []), ("noevent", ["--no-event"], []),
+                        ("bigbuf", ["--no-event", "-b", "8M"], ["b%d" % rng.choice([70, 85, 100])])]
             if ctx.tier == "thorough":
-                variants += [("event-thread", [], ["t"]), ("noevent-thread", ["--no-event"], ["t"])]
+                variants += [("event-thread", [], ["t"]), ("noevent-thread", ["--no-event"], ["t"]),
+                             ("bigbuf-event", ["-b", "8M"], ["b120"]), ("bigbuf-2m", ["--no-event", "-b", "2M"], ["b150"])]
             for vname, extra, pargs in variants:
                 st["real_variants"] += 1
                 ld = os.path.join(real, "local-%s.data" % vname)
@@ -883,7 +895,7 @@ def run_e2e(ctx, report):
                 rc1, e1 = E.record(uftrace, libm, real, ld, prog, pargs, cpu, extra)
                 rc2, e2 = E.record(uftrace, libm, real, nname, prog, pargs, cpu,
                                    extra + ["--host", "127.0.0.1", "--port", str(srv.port)])
-                case = {"program": "harness/c16_e2e.py PROG_C (main: compute, wait_for_io -> usleep(30ms), compute)", "args": pargs,
+                case = {"program": "harness/c16_e2e.py PROG_C (main: [bN: burst -> N thousand step -> compute,] compute, wait_for_io -> usleep(30ms), compute)", "args": pargs,
                         "pinned_to_cpu": cpu, "cpus_available": ncpu,
                         "local_cmd": "uftrace record -d local.data %s ./prog" % " ".join(extra),
                         "network_cmd": "uftrace recv --port P  +  uftrace record --host 127.0.0.1 --port P -d %s %s ./prog" % (nname, " ".join(extra))}
